@@ -586,6 +586,16 @@ fn run_builder(scn: &TabScenario, mask: Mask, res: &mut TabResult) -> Check {
                     types: model.v.iter().enumerate().map(|(i, t)| (i as u32, t.clone())).collect(),
                 };
                 core::log_u64(p.len() as u64);
+                // C05, on the produced registry: no id label is carried by two entries
+                {
+                    let mut labels: Vec<u32> = p.types.iter().map(|x| x.0).collect();
+                    labels.sort_unstable();
+                    if let Some(w) = labels.windows(2).find(|w| w[0] == w[1]) {
+                        fail(mask, "C05", "builder.finish_two_entries_share_an_id", || {
+                            format!("op {}: finish() lists two entries labelled {}", k, w[0])
+                        })?;
+                    }
+                }
                 if let Some(i) = p.first_not_dense() {
                     fail(mask, "C01", "dense.builder_finish", || {
                         format!("op {}: position {} carries id {}", k, i, p.types[i].0)
@@ -896,6 +906,7 @@ pub fn execute(scn: &TabScenario, mask: Mask) -> Result<TabResult, Violation> {
             property: "C12".to_string(),
             clause: core::panic_clause(&msg),
             detail: format!("library code panicked: {}", msg),
+        case: None,
         }),
         Err(_) => {
             probe("builder_panicked_under_a_check_that_does_not_answer_for_it");
